@@ -36,8 +36,10 @@ SETUP = [
     "A = m.new_space('A'); A.r = 1; A.new_cells('x', formula='lambda: 1 + r')",
     "T = A.new_space('T'); T.new_cells('tc', formula='lambda: 10')",
     "Sub = m.new_space('Sub', bases=[A])",
+    "X = m.new_space('X', bases=[A.T])",        # derives from a child of A
     "P = m.new_space('P', formula='lambda i: None'); P.new_cells('c', formula='lambda: i * 2'); P.k = 3",
     "Q = P.new_space('Q'); Q.new_cells('qc', formula='lambda: 5')",
+    "R = P.new_space('R', formula='lambda j: None'); R.new_cells('rc', formula='lambda: i * 10 + j')",
     "O = m.new_space('O'); O.ax = A.x; O.sp = A; O.new_cells('oc', formula='lambda: ax() + 100')",
     "O.new_cells('ot', formula='lambda: sp.T.tc() + 200'); O.new_cells('orr', formula='lambda: sp.r + 300')",
     "D = m.new_space('D', formula='lambda j: {\"base\": A}', refs={'A': A})",
@@ -48,6 +50,7 @@ EVALS = [
     py("m.A.x()", False), py("m.Sub.x()", False), py("m.O.oc()", False), py("m.O.ot()", False),
     py("m.O.orr()", False), py("m.O.op()", False),
     py("m.P[1].c()", False), py("m.P[1].Q.qc()", False), py("m.D[1].x()", False), py("m.P[2]", False),
+    py("m.P[1].R[2].rc()", False),
 ]
 EDITS = [
     py("del m.A.x"), py("del m.A"), py("del m.A.r"), py("del m.A.T"), py("del m.A.T.tc"),
@@ -55,10 +58,11 @@ EDITS = [
     py("del m.P[1]"), py("m.P.clear_items()"), py("m.P.c.formula = 'lambda: i * 3'"), py("m.P.k = 4"),
     py("del m.P.c"), py("del m.P.Q"), py("del m.P"), py("m.P.formula = 'lambda i, j=0: None'"),
     py("m.A.new_cells('z', formula='lambda: 9')"), py("m.D.clear_items()"), py("del m.D"),
-    py("del m.O.ax"), py("m.A.x.rename('x2')"), py("m.clear_all()"),
+    py("del m.O.ax"), py("m.A.x.rename('x2')"), py("m.clear_all()"), py("m.P.clear_at(1)"),
+    py("m.P.R.rc.formula = 'lambda: i * 10 + j + 1'"), py("del m.P.R"),
 ]
-PROBE_EXPRS = ["m.A.x()", "m.Sub.x()", "m.O.oc()", "m.O.ot()", "m.O.orr()", "m.O.op()", "m.P[1].c()",
-               "m.P[1].Q.qc()", "m.D[1].x()"]
+PROBE_EXPRS = ["m.X.tc()", "m.A.x()", "m.Sub.x()", "m.O.oc()", "m.O.ot()", "m.O.orr()", "m.O.op()", "m.P[1].c()",
+               "m.P[1].Q.qc()", "m.D[1].x()", "m.P[1].R[2].rc()"]
 
 
 def build():
